@@ -79,7 +79,7 @@ def stage(rep, prop, family, n, known_db, label=None):
 
 
 PROFILES = {
-    "C06": dict(families=[(["flat", "nested"], (120, 2500))], mc=("F2zero", 2, 2, 1)),
+    "C06": dict(families=[(["flat", "nested"], (120, 2500)), ("cashstep", (24, 300))], mc=("F2zero", 2, 2, 1)),
 }
 
 
